@@ -485,6 +485,7 @@ type FnContract struct {
 	Asserts     []CallAssert // reserved
 	Covers      []Clause
 	Captures    []Capture
+	Instances   []Clause // bounded stand-ins: extra entry assumptions fixing some parameters (label = instance name)
 	Props       []string // property ids this contract serves (informational)
 	Used        bool
 }
@@ -542,7 +543,7 @@ type UFDecl struct {
 var clauseKeywords = map[string]bool{
 	"func": true, "extern": true, "interface": true, "requires": true, "ensures": true, "let": true,
 	"modifies": true, "nopanic": true, "pure": true, "pureheap": true, "loop": true, "at": true, "ghost": true,
-	"define": true, "lemma": true, "const_global": true, "capture": true, "ghost_ensures": true, "cover": true, "props": true, "uf": true, "params": true,
+	"define": true, "lemma": true, "const_global": true, "capture": true, "instance": true, "ghost_ensures": true, "cover": true, "props": true, "uf": true, "params": true,
 }
 
 // parseContractFile reads the //@ lines of one file.
@@ -697,6 +698,12 @@ func (cs *Contracts) parseContractFile(path string, pkg string) error {
 			cur.HasMod = true
 			cur.ModAll = cur.ModAll || all
 			cur.Modifies = append(cur.Modifies, items...)
+		case "instance":
+			c, err := labelled(rest)
+			if err != nil {
+				return err
+			}
+			cur.Instances = append(cur.Instances, c)
 		case "capture":
 			// capture name Sort = result K of call Pattern
 			if len(fs) != 9 || fs[3] != "=" || fs[4] != "result" || fs[6] != "of" || fs[7] != "call" {
